@@ -1,5 +1,6 @@
 import Az65.Drv.Expr
 import Az65.Drv.CR
+import Az65.Drv.Intern
 /-
 `azmodel`: line-protocol driver.  Reads `id \t mode \t args…` lines on stdin, prints
 `id \t <model/spec columns>` per line.  Imports only Model/Spec/Drv files (no Mathlib), so it
@@ -11,6 +12,7 @@ def dispatch (mode : String) (args : List String) : String :=
   match mode with
   | "expr" => runExpr args
   | "cr" => runCR args
+  | "intern" => runIntern args
   | _ => "BADMODE"
 
 partial def loop (h : IO.FS.Stream) (out : IO.FS.Stream) : IO Unit := do
